@@ -42,7 +42,7 @@ ES = (3, 17, 65537)
 
 def plan(tier, seed):
     q = tier == "quick"
-    B = 32 if q else 260
+    B = 40 if q else 260
     specs = []
     bits = list(range(1024, 1032))
     if q:
